@@ -156,6 +156,11 @@ func (e *Executor) RunTask(ctx context.Context, call *Call) error {
 	return e.startExecution(ctx, t, func(ctx context.Context) error {
 		e.Logger.VerboseErrf(logger.Magenta, "task: %q started\n", call.Task)
 		if err := e.runDeps(ctx, t); err != nil {
+			// A failed command in a dependency fails the task that was asked
+			// for, with the same error class as a failed command of its own.
+			if _, isExitError := interp.IsExitStatus(err); isExitError && !call.Indirect {
+				return &errors.TaskRunError{TaskName: t.Task, Err: err}
+			}
 			return err
 		}
 
